@@ -1038,6 +1038,10 @@ func accessibleFrom(info *types.Info, node ast.Node, wantPkg string) error {
 			// An unkeyed struct literal sets every field without naming it.
 			if _, keyed := lit.Elts[0].(*ast.KeyValueExpr); !keyed {
 				if t := info.TypeOf(lit); t != nil {
+					if p, ok := t.Underlying().(*types.Pointer); ok {
+						// An element literal whose type is elided in []*T{{...}}.
+						t = p.Elem()
+					}
 					if st, ok := t.Underlying().(*types.Struct); ok {
 						for i := 0; i < st.NumFields(); i++ {
 							if f := st.Field(i); !f.Exported() && f.Pkg() != nil && f.Pkg().Path() != wantPkg {
